@@ -321,7 +321,7 @@ fn cat(parts: &[&[bool]]) -> Vec<bool> {
 }
 
 #[derive(Clone, Copy, PartialEq, Eq, Debug)]
-enum Stream {
+pub enum Stream {
     SorV0,
     SorV1,
     Std,
@@ -386,7 +386,7 @@ fn block_letters(s: Stream, intra: bool) -> Vec<(&'static str, Vec<bool>)> {
 }
 
 /// Complete-macroblock letters for intra pictures.
-fn letters_i(s: Stream) -> Vec<(String, Vec<bool>)> {
+pub fn letters_i(s: Stream) -> Vec<(String, Vec<bool>)> {
     let mut v: Vec<(String, Vec<bool>)> = vec![];
     let dc = b("01000000");
     let dcs6 = cat(&[&dc, &dc, &dc, &dc, &dc, &dc]);
@@ -438,7 +438,7 @@ fn letters_i(s: Stream) -> Vec<(String, Vec<bool>)> {
 }
 
 /// Complete-macroblock letters for predicted pictures.
-fn letters_p(s: Stream) -> Vec<(String, Vec<bool>)> {
+pub fn letters_p(s: Stream) -> Vec<(String, Vec<bool>)> {
     let mut v: Vec<(String, Vec<bool>)> = vec![];
     let cod0 = b("0");
     let mv0 = b("1");
